@@ -476,6 +476,17 @@ WsdlCases ==
                    Xsd("far.xsd", "Ufar", << <<"o", "Ufar">> >>,
                        << ElemI("GetFar", << El("farArg", B("string"), 1, "1") >>), ElemI("GetFarResponse", << El("farResult", B("int"), 1, "1") >>),
                           ElemI("SessionHeader", << El("session", B("string"), 1, "1") >>) >>) >>,
+   \* message parts that refer to global elements WITH A TYPE ATTRIBUTE: a named complex type, a restricted simple type,
+   \* a builtin (the element is then an alias, not a struct of its own)
+   elem_typed |-> << Wsdl(<< Cx("OtherType", None, << El("otherValue", B("string"), 1, "1"), El("itemId", B("int"), 0, "1") >>, << At("keyAttr", B("string"), "opt") >>),
+                             Simple("ShortCode", B("string"), << <<"minLen", 2>>, <<"maxLen", 4>> >>),
+                             ElemT("GetItem", T("tns", "OtherType")), ElemT("GetItemResponse", B("string")),
+                             ElemT("AuthHeader", T("tns", "ShortCode")), ElemT("TraceHeader", B("long")) >>, <<>>,
+                  Common(<< [n |-> "GetItem", action |-> "act",
+                             input |-> [msg |-> "request", headers |-> << Hdr("request", "auth") >>],
+                             output |-> [msg |-> "response", headers |-> << Hdr("response", "trace") >>]] >>,
+                         << Msg("request", << Part("auth", "tns", "AuthHeader"), Part("bodyPart", "tns", "GetItem") >>),
+                            Msg("response", << Part("answer", "tns", "GetItemResponse"), Part("trace", "tns", "TraceHeader") >>) >>)) >>,
    \* the inline schema has its own target namespace (Uthird), different from that of the definitions (Usvc)
    inline_tns |-> << Wsdl(<< ElemI("GetItem", << El("itemId", B("string"), 1, "1"), El("subjectMember", T("ty", "OtherType"), 0, "1") >>),
                              ElemI("GetItemResponse", << El("itemName", B("string"), 1, "1") >>),
